@@ -1,6 +1,6 @@
 From Coq Require Import List ZArith Bool.
 Import ListNotations.
-Require Import DH.Common.Data DH.C14_Timeout.Model DH.C14_Timeout.Check.
+Require Import DH.Common.Data DH.C14_Timeout.Model DH.C14_Timeout.Check DH.C14_Timeout.Global DH.C14_Timeout.Accept.
 Open Scope Z_scope.
 
 Definition d_st (d : data) : st := match st_of_code (dZ d) with Some s => s | None => READY end.
@@ -18,4 +18,28 @@ Definition e_check (d : data) : data :=
                   (dmap (fun x => (dnat (dnth 0 x), d_st (dnth 1 x), dZ (dnth 2 x))) (dnth 3 d)) (dZ (dnth 4 d)) (dnat (dnth 5 d)) in
   match r with None => L [I 1; I 0; I 0] | Some (j, c) => L [I 0; enat j; enat c] end.
 
-Definition entries : list (Z * (data -> data)) := [ (1401, e_check) ].
+(* ---- acceptance of the observed GLOBAL trace by the global model (Accept.v) ----
+   event: [job; kind; arg]   kind 0 W status, 1 FStart, 2 Poll status, 3 FReturn (arg = returned value), 4 execute() returns,
+   5 submit called, 6 gather entered, 7 gather returned, 8 early sentinel, 9 sentinel, 10 close entered, 11 close returned,
+   12 search() returned, 13 another search() call (arg: 0 budget untouched, 1 search(timeout=), 2 evaluator.timeout set), 14 _on_done returned *)
+Definition d_budget (z : Z) : option budget := if z =? 1 then Some BSearch else if z =? 2 then Some BEval else None.
+Definition d_oev (d : data) : oev :=
+  let j := dnat (dnth 0 d) in let k := dZ (dnth 1 d) in let a := dnth 2 d in
+  if k =? 0 then OW j (d_st a) else if k =? 1 then OStart j else if k =? 2 then OPoll j (d_st a) else if k =? 3 then ORet j (dZ a)
+  else if k =? 4 then OFin j else if k =? 5 then OSubmitCall else if k =? 6 then OGatherIn else if k =? 7 then OGatherOut
+  else if k =? 8 then OSent0 else if k =? 9 then OSent else if k =? 10 then OCloseIn else if k =? 11 then OCloseOut
+  else if k =? 12 then OReturn else if k =? 13 then OAgain (d_budget (dZ a)) else OCollected j.
+
+(* 1402: [workers; budget; events; table; fail_code] -> [accepted; position; code; races; phase; tables agree; jobs; strict violations] *)
+Definition e_accept (d : data) : data :=
+  let c := observed_cfg (dZ (dnth 4 d)) in
+  let g0 := ginit (dnat (dnth 0 d)) (d_budget (dZ (dnth 1 d))) in
+  let table := dmap (fun x => (dnat (dnth 0 x), d_st (dnth 1 x), dZ (dnth 2 x))) (dnth 3 d) in
+  let '(g, r) := accept c g0 (dmap d_oev (dnth 2 d)) 0 in
+  L [ebool (match r with None => true | Some _ => false end);
+     enat (match r with Some (p, _) => p | None => 0 end);
+     enat (match r with Some (_, k) => k | None => 0 end);
+     enat (races g); enat (lphase_code (phase g));
+     ebool (tables_agree (length (jobs g)) (rows g) table); enat (length (jobs g))].
+
+Definition entries : list (Z * (data -> data)) := [ (1401, e_check); (1402, e_accept) ].
